@@ -48,7 +48,7 @@ def run(ctx):
                 for s_ in syms:
                     k = s_.decode("utf-8", "replace")
                     tall[k] = tall.get(k, 0) + 1
-            coll = "reserved-refgroup-name" if any(s in ("ignored", "other") or s.endswith(".other") for s, _ in defs) else None
+            coll = None   # the reserved-name finding is exhibited by the directed cases below; nothing is excused here
             if j["reference_count"] != len(refs):
                 res.violations.append(vlib.Violation("reference_count is not the number of references", inp, expected=len(refs),
                                                      observed=j["reference_count"]))
@@ -75,6 +75,29 @@ def run(ctx):
                     if got != want:
                         res.violations.append(vlib.Violation("JSON v2 refgroup.* items differ from the tallies", inp, expected=want,
                                                              observed=got, cls=coll))
+        # directed: user-defined groups named like the synthetic buckets.  Judge independent of the model: the number shown
+        # for a user-defined group must be the number of references satisfying that group's rules.
+        for sym, cfgx, refsx, want in (
+                ("other", [("refgroup.other.include", "refs/heads")], [b"refs/heads/a", b"refs/heads/b", b"refs/foo/x", b"refs/foo/y", b"refs/foo/z"], 2),
+                ("ignored", [("refgroup.ignored.include", "refs/heads")], [b"refs/heads/a", b"refs/tags/t1", b"refs/tags/t2"], 1),
+                ("tags.other", [("refgroup.tags.v.include", "refs/tags/v"), ("refgroup.tags.other.include", "refs/tags/x")],
+                 [b"refs/tags/v1", b"refs/tags/x1", b"refs/tags/y1", b"refs/tags/y2"], 1)):
+            cli = ["--exclude", "refs/tags/t"] if sym == "ignored" else []
+            s, c = RC.base_scenario()
+            for n in refsx:
+                s.refs.append((n, c))
+            s.compute()
+            rc, out, err, log = eng.run_fake(s, s.enum_gitlike([c]), cli, [], config=cfgx, extra_args=["--json", "--no-progress"])
+            res.case(("reserved", sym), True)
+            inp = {"config": cfgx, "refs": [n.decode() for n in refsx], "cli": cli}
+            if rc != 0:
+                res.violations.append(vlib.Violation("run failed: %s" % err[:200].decode("latin1"), inp, expected="exit 0"))
+                continue
+            got = json.loads(out)["reference_groups"].get(sym)
+            if got != want:
+                res.violations.append(vlib.Violation(
+                    "the tally shown for user-defined refgroup '%s' is not the number of references satisfying its rules" % sym, inp,
+                    expected=want, observed=got, cls="reserved-refgroup-name"))
     finally:
         eng.close()
     res.coverage_extra["input_distribution"] = {"group_nesting_depth_histogram": depth_hist}
